@@ -12,6 +12,8 @@ def _refs(v, out):
             out.add(v['$ref'])
         elif '$origin' in v and isinstance(v['$origin'], int):
             out.add(v['$origin'])
+        elif '$origin_later' in v:
+            out.add(v['$origin_later'])
         else:
             for x in v.values():
                 _refs(x, out)
@@ -26,6 +28,8 @@ def _remap(v, j):
             return {'$ref': v['$ref'] - 1 if v['$ref'] > j else v['$ref']}
         if '$origin' in v and isinstance(v['$origin'], int):
             return {'$origin': v['$origin'] - 1 if v['$origin'] > j else v['$origin']}
+        if '$origin_later' in v:
+            return {'$origin_later': v['$origin_later'] - 1 if v['$origin_later'] > j else v['$origin_later']}
         return {k: _remap(x, j) for k, x in v.items()}
     if isinstance(v, list):
         return [_remap(x, j) for x in v]
